@@ -10,8 +10,11 @@ Next == l < Len(Obs) /\ l' = l + 1
 \* a law case (family emitsnap): out0, the output of the cut-down run, must be a prefix of out
 IsLaw(c) == "law" \in DOMAIN c
 IsPrefixOf(a, b) == Len(a) <= Len(b) /\ SubSeq(b, 1, Len(a)) = a
+NonEmpty(out) == SelectSeq(out, LAMBDA x : ~(Len(x) = 2 /\ x[1] = "r" /\ x[2] = <<>>))
 Conforms == LET o == Obs[l] IN
   IF IsLaw(o.c) THEN (IsPrefixOf(o.out0, o.out) /\ o.out0 # <<>> /\ o.out0 # << <<"fatal">> >>)
                      \/ PrintT(ToJson([line |-> l, expected |-> <<"the output of the cut-down run as a prefix", o.out0>>]))
-  ELSE (o.out = Run(o.c.p, o.c.recs)) \/ PrintT(ToJson([line |-> l, expected |-> Run(o.c.p, o.c.recs)]))
+  \* (a record with no fields is a blank line of DKVP output, which the harness cannot tell from no line: such records
+  \* are left out on both sides)
+  ELSE (NonEmpty(o.out) = NonEmpty(Run(o.c.p, o.c.recs))) \/ PrintT(ToJson([line |-> l, expected |-> Run(o.c.p, o.c.recs)]))
 =============================================================================
